@@ -425,6 +425,11 @@ func runC19(col *Collector, tier string, seed int64) {
 	}
 	parallel(len(sjobs), 8, func(i int) { formatSequenceCase(col, dir, sjobs[i].f, sjobs[i].t) })
 	recordedAcrossFormats(col)
+	if tier == "thorough" {
+		cockpitStressCase(col, 16, 3000)
+	} else {
+		cockpitStressCase(col, 16, 600)
+	}
 }
 
 // what a run records about the task (status fields and the captured stdout / stderr) under each of the three
@@ -494,4 +499,51 @@ func recordedAcrossFormats(col *Collector) {
 		}
 		col.Add(cs)
 	}
+}
+
+// the cockpit under stress: many tasks finishing (successfully and not) while the indicator is being redrawn, on one
+// runner - the run must return; a lock taken in two orders by the finishing task and the redraw goroutine shows as a hang
+func cockpitStressCase(col *Collector, workers, rounds int) {
+	cs := Case{Replay: fmt.Sprintf("cockpit format: %d workers x %d tasks each (every second one fails) on one runner", workers, rounds), Tags: []string{"cockpit-stress"}, NonTrivial: true}
+	r, err := runner.NewTaskRunner()
+	if err != nil {
+		cs.Fail, cs.Sig = err.Error(), "c19-setup"
+		col.Add(cs)
+		return
+	}
+	r.Stdout, r.Stderr = devNull{}, devNull{}
+	r.OutputFormat = output.FormatCockpit
+	done := make(chan string, workers)
+	for w := 0; w < workers; w++ {
+		go func(w int) {
+			defer func() {
+				if p := recover(); p != nil {
+					done <- fmt.Sprint("PANIC: ", p)
+				}
+			}()
+			for i := 0; i < rounds; i++ {
+				t := task.FromCommands(fmt.Sprintf("exit %d", i%2))
+				t.Name = fmt.Sprintf("w%d", w) // one name per worker: the runner keeps an output variable per task name
+				e := r.Run(t)
+				if (e != nil) != (i%2 == 1) || t.Errored != (i%2 == 1) {
+					done <- fmt.Sprintf("task %s: error=%v errored=%v, its command exits %d", t.Name, e, t.Errored, i%2)
+					return
+				}
+			}
+			done <- ""
+		}(w)
+	}
+	deadline := time.After(60 * time.Second)
+	for w := 0; w < workers && cs.Fail == ""; w++ {
+		select {
+		case msg := <-done:
+			if msg != "" {
+				cs.Fail, cs.Sig = msg, "c19-format-dependent-result"
+			}
+		case <-deadline:
+			cs.Fail, cs.Sig = "tasks finishing under the cockpit format: the runs did not return within 60s", "c19-format-hang"
+		}
+	}
+	cs.Impl = "returned=" + fmt.Sprint(cs.Fail == "")
+	col.Add(cs)
 }
